@@ -1,6 +1,7 @@
 package props
 
 import (
+	"go/token"
 	"go/ast"
 	"go/types"
 	"sort"
@@ -69,7 +70,7 @@ func runC17(c *core.Ctx) {
 				return true
 			})
 		}
-		o.Require(nNodes == 2 && nRoots == 3, "expected 2 non-root and 3 root node literals, found %d/%d", nNodes, nRoots)
+		o.Require(nNodes >= 1 && nRoots >= 1, "expected non-root and root node literals, found %d/%d", nNodes, nRoots)
 	})
 	c.Check("C17-R1", pk+".finish/root-only", "the reference handed out as the tree root was produced by a root writer (a node written as a non-root carries /Limits and must not become the root)", func(o *core.Ob) {
 		fn := c.Prog.Func(pk, "(*treeWriter).finish")
@@ -98,10 +99,28 @@ func runC17(c *core.Ctx) {
 				return a.Neg && strings.Contains(strings.ReplaceAll(core.ExprStr(a.Expr), " ", ""), "root.depth>0")
 			})
 			if !ok {
+				// any other way of knowing that the node's depth is not positive
+				var depthSel ast.Expr
+				if sel, isSel := ast.Unparen(rs.Results[0]).(*ast.SelectorExpr); isSel {
+					base := core.ObjOf(info, sel.X)
+					ast.Inspect(fn.Decl.Body, func(n ast.Node) bool {
+						if s2, ok := n.(*ast.SelectorExpr); ok && s2.Sel.Name == "depth" && base != nil && core.ObjOf(info, s2.X) == base {
+							depthSel = s2
+						}
+						return true
+					})
+				}
+				if depthSel != nil {
+					pos := &ast.BinaryExpr{X: depthSel, Op: token.GTR, Y: &ast.BasicLit{Kind: token.INT, Value: "0"}}
+					holds, _, decided := c.Prog.Implies(core.Formula{Fn: fn, Atoms: g.DominatingAtoms(r)}, core.Formula{Fn: fn, Atoms: []core.Atom{{Expr: pos, Neg: true}}})
+					ok = decided && holds
+				}
+			}
+			if !ok {
 				o.FailAt(fn.Site(rs, ""), "finish returns the node reference %s, which was written as a non-root node (with /Limits)", core.ExprStr(rs.Results[0]))
 			}
 		}
-		o.Require(n == 3, "expected the three root writers to be used, found %d", n)
+		o.Require(n >= 1, "expected the root writers to be used, found %d", n)
 		// the single-leaf case is handled before collapse
 		src := c.Prog.Src(fn.Decl.Body)
 		o.Shape(strings.Contains(src, "iflen(w.tail)==1&&w.tail[0].depth==0{returnw.writeRootFromSingleLeaf(w.tail[0])}"), "a single completed leaf is not re-wrapped as a root")
@@ -111,17 +130,17 @@ func runC17(c *core.Ctx) {
 		leaf := c.Prog.Func(pk, "(*treeWriter).completePendingLeaf")
 		ls := c.Prog.Src(leaf.Decl.Body)
 		o.At(leaf.Site(leaf.Decl, "leaf"))
-		o.Require(strings.Contains(ls, `"Limits":pdf.Array{kc.encode(w.pendingLeaf[0].key),kc.encode(w.pendingLeaf[len(w.pendingLeaf)-1].key),}`), "leaf /Limits is not built from the first and last pending key")
-		o.Require(strings.Contains(ls, "for_,e:=rangew.pendingLeaf{entries=append(entries,kc.encode(e.key))entries=append(entries,e.value)}"), "the leaf array is not built from the same pending entries, key before value")
-		o.Require(strings.Contains(ls, "minKey:w.pendingLeaf[0].key,maxKey:w.pendingLeaf[len(w.pendingLeaf)-1].key,"), "the leaf's recorded key range differs from its /Limits")
+		o.Shape(strings.Contains(ls, `"Limits":pdf.Array{kc.encode(w.pendingLeaf[0].key),kc.encode(w.pendingLeaf[len(w.pendingLeaf)-1].key),}`), "leaf /Limits is not built from the first and last pending key")
+		o.Shape(strings.Contains(ls, "for_,e:=rangew.pendingLeaf{entries=append(entries,kc.encode(e.key))entries=append(entries,e.value)}"), "the leaf array is not built from the same pending entries, key before value")
+		o.Shape(strings.Contains(ls, "minKey:w.pendingLeaf[0].key,maxKey:w.pendingLeaf[len(w.pendingLeaf)-1].key,"), "the leaf's recorded key range differs from its /Limits")
 		mn := c.Prog.Func(pk, "(*treeWriter).mergeNodes")
 		ms := c.Prog.Src(mn.Decl.Body)
 		o.At(mn.Site(mn.Decl, "intermediate"))
-		o.Require(strings.Contains(ms, "children:=w.tail[start:end]"), "children slice")
-		o.Require(strings.Contains(ms, "for_,child:=rangechildren{kids=append(kids,child.ref)}"), "/Kids is not built from the children slice in order")
-		o.Require(strings.Contains(ms, `"Limits":pdf.Array{kc.encode(children[0].minKey),kc.encode(children[len(children)-1].maxKey),}`), "intermediate /Limits is not [first child's min, last child's max]")
-		o.Require(strings.Contains(ms, "minKey:children[0].minKey,maxKey:children[len(children)-1].maxKey,"), "the merged node's recorded range differs from its /Limits")
-		o.Require(strings.Contains(ms, "depth:children[0].depth+1"), "the merged node's depth")
+		o.Shape(strings.Contains(ms, "children:=w.tail[start:end]"), "children slice")
+		o.Shape(strings.Contains(ms, "for_,child:=rangechildren{kids=append(kids,child.ref)}"), "/Kids is not built from the children slice in order")
+		o.Shape(strings.Contains(ms, `"Limits":pdf.Array{kc.encode(children[0].minKey),kc.encode(children[len(children)-1].maxKey),}`), "intermediate /Limits is not [first child's min, last child's max]")
+		o.Shape(strings.Contains(ms, "minKey:children[0].minKey,maxKey:children[len(children)-1].maxKey,"), "the merged node's recorded range differs from its /Limits")
+		o.Shape(strings.Contains(ms, "depth:children[0].depth+1"), "the merged node's depth")
 	})
 	c.Check("C17-R3", pk+".(*treeWriter).addEntry", "keys must arrive strictly ascending: a key not greater than the previous one is rejected before it is buffered; a full leaf is completed at the fan-out bound", func(o *core.Ob) {
 		fn := c.Prog.Func(pk, "(*treeWriter).addEntry")
@@ -159,9 +178,71 @@ func runC17(c *core.Ctx) {
 		fn := c.Prog.Func(pk, "WriteMap")
 		o.At(fn.Site(fn.Decl, ""))
 		checkMapRanges(o, fn, true)
-		src := c.Prog.Src(fn.Decl.Body)
-		i1, i2 := strings.Index(src, "slices.Sort(keys)"), strings.Index(src, "for_,k:=rangekeys{")
-		o.Require(i1 >= 0 && i2 > i1, "keys are not sorted before iteration")
+		// every loop that feeds entries to the tree writer ranges over a slice
+		// that was sorted (in place, before the loop) or produced sorted
+		g := fn.Graph()
+		info := fn.Info()
+		isSortCall := func(k string) bool {
+			switch k {
+			case "slices.Sort", "slices.SortFunc", "slices.SortStableFunc", "sort.Slice", "sort.SliceStable", "sort.Strings", "sort.Ints", "sort.Sort":
+				return true
+			}
+			return false
+		}
+		isSortedProducer := func(e ast.Expr) bool {
+			call, ok := ast.Unparen(e).(*ast.CallExpr)
+			if !ok {
+				return false
+			}
+			k := core.CalleeKey(info, call)
+			return k == "slices.Sorted" || k == "slices.SortedFunc" || k == "slices.SortedStableFunc"
+		}
+		loops := 0
+		_ = g
+		ast.Inspect(fn.Decl.Body, func(n ast.Node) bool {
+			rs, ok := n.(*ast.RangeStmt)
+			if !ok {
+				return true
+			}
+			if _, isMap := info.TypeOf(rs.X).Underlying().(*types.Map); isMap {
+				return true // collecting the keys; checkMapRanges looks at what the body does
+			}
+			// a loop that hands entries on: its body calls something other than append
+			feeds := false
+			for _, cs := range core.CallsIn(info, rs.Body, true) {
+				if cs.Key != "builtin.append" && cs.Key != "builtin.len" {
+					feeds = true
+				}
+			}
+			if !feeds {
+				return true
+			}
+			loops++
+			x := rs.X
+			o.At(fn.Site(rs, "feeds the writer"))
+			if isSortedProducer(x) {
+				return true
+			}
+			obj := core.ObjOf(info, x)
+			sorted := false
+			if obj != nil {
+				for _, d := range core.AssignsTo(info, fn.Decl, obj) {
+					if as, ok := d.(*ast.AssignStmt); ok && len(as.Rhs) == 1 && isSortedProducer(as.Rhs[0]) {
+						sorted = true
+					}
+				}
+				for _, cs := range core.CallsIn(info, fn.Decl.Body, true) {
+					if isSortCall(cs.Key) && len(cs.Call.Args) >= 1 && core.ObjOf(info, cs.Call.Args[0]) == obj && cs.Call.Pos() < rs.Pos() {
+						sorted = true
+					}
+				}
+			}
+			if !sorted {
+				o.FailAt(fn.Site(rs, ""), "keys are not sorted before iteration")
+			}
+			return true
+		})
+		o.Require(loops >= 1, "the loop that feeds the entries to the writer was not found")
 	})
 	c.Check("C17-R4", pk+".codecs", "a key codec decodes every key it can encode: decode has no key-dependent rejection, encode/decode use the matching PDF type", func(o *core.Ob) {
 		for _, t := range []string{"NameCodec", "NumCodec"} {
@@ -182,9 +263,9 @@ func runC17(c *core.Ctx) {
 			})
 			es, ds := c.Prog.Src(enc.Decl.Body), c.Prog.Src(dec.Decl.Body)
 			if t == "NameCodec" {
-				o.Require(es == "{returnpdf.String(key)}" && strings.Contains(ds, "c.String(obj)") && strings.Contains(ds, "pdf.Name(s)"), "name keys must be written as strings and read back as strings")
+				o.Shape(es == "{returnpdf.String(key)}" && strings.Contains(ds, "c.String(obj)") && strings.Contains(ds, "pdf.Name(s)"), "name keys must be written as strings and read back as strings")
 			} else {
-				o.Require(es == "{returnkey}" && strings.Contains(ds, "c.Integer(obj)"), "number keys must be written and read as integers")
+				o.Shape(es == "{returnkey}" && strings.Contains(ds, "c.Integer(obj)"), "number keys must be written and read as integers")
 			}
 		}
 	})
